@@ -56,6 +56,9 @@ def gen_tree(rng, depth=0, budget=None):
     return kids
 
 
+FORCE_LINKS = [False]   # directed scenarios: every further file of an already seen size is a hard link of the first one
+
+
 def materialise(root, tree, outside, links=None):
     """files of equal size are, for about a third of them, further hard links of one inode (as the by-hash aliases of the
     tool's own mirror trees are): every name is a file of that size in its own right for the cleaner"""
@@ -68,7 +71,7 @@ def materialise(root, tree, outside, links=None):
             os.symlink(tgt, p)
         elif isinstance(k, int):
             first = links.get(k)
-            if first is not None and random.Random(f"{name}-{k}-{len(links)}-{p[-9:]}").random() < 0.35:
+            if first is not None and (FORCE_LINKS[0] or random.Random(f"{name}-{k}-{len(links)}-{p[-9:]}").random() < 0.35):
                 os.link(first, p)
                 links["n"] = links.get("n", 0) + 1
             else:
@@ -494,6 +497,18 @@ def run(chk, tier, rng):
     for i, (tree, keep) in enumerate(CORPUS):
         check_tree(chk, tree, keep, None, None, f"corpus{i}")
         chk.count("corpus_scenarios")
+    # wipe ratios over hard-linked obsolete files (seed agent-C04-12): a few large stale files that are links of one inode, next to
+    # many small kept ones - the byte share reaches the ratio, the file share does not: nothing may be removed, by the cleaner or
+    # by its script; and the mirror image (byte share below, file share reached)
+    big = [["pool", [["o", [["old1.deb", 900], ["old2.deb", 900]]], ["k", [[f"k{j}.deb", 1 + j] for j in range(8)]]]]]
+    keepk = [["pool", "k", f"k{j}.deb"] for j in range(8)]
+    FORCE_LINKS[0] = True
+    try:
+        for sr, cr in (((2, 5), (2, 5)), ((2, 5), None), ((9, 10), (1, 10)), ((99, 100), (99, 100))):
+            check_tree(chk, big, keepk, sr, cr, "corpus-hardlinked-wipe")
+            chk.count("corpus_scenarios")
+    finally:
+        FORCE_LINKS[0] = False
     n = 150 if tier == "quick" else 4000
     for i in range(n):
         r = random.Random(f"C04-{chk.seed}-{i}")
